@@ -74,6 +74,17 @@ def gen(rng, tier):
             if tier == "quick" and rng.random() < 0.6: continue
             add("totpnow", [kn, kl, p, d, s, now, err], "k%d%s p%s d%s sel%s now%s err%d" % (kn, kl, "ok" if p > 0 else "bad", "ok" if 1 <= d <= 9 else "bad", s, "neg" if now < 0 else "pos", err))
             add("totpvalidnow", [kn, kl, p, d, s, now, err], "k%d%s p%s d%s sel%s now%s err%d" % (kn, kl, "ok" if p > 0 else "bad", "ok" if 1 <= d <= 9 else "bad", s, "neg" if now < 0 else "pos", err))
+    # values congruent to a valid one modulo 2^8 / 2^16 (a parameter narrowed to a byte or a short would take them for valid)
+    for d in [6 + 256, 1 + 256, 9 + 256, 6 - 256, 6 + 65536, 262 + 65536, 6 - 65536, 6 + 2 ** 24]:
+        for (kn, kl) in [(0, 5)]:
+            add("hotp", [kn, kl, d, 0], "k0+ d-congruent sel ok")
+            add("totpat", [kn, kl, 30, d, 0], "k05 p30 d-congruent sel0")
+            add("totpvalidat", [kn, kl, 30, d, 0], "k05 p30 d-congruent sel0")
+            add("totpnow", [kn, kl, 30, d, 0, 59, 0], "k05 pok d-congruent sel0 nowpos err0")
+    for s_ in [256, 257, 258, 65536, 65537, -256, 2 ** 24 + 1]:
+        add("gethash", [s_], "sel-congruent=%d" % s_); add("hotp", [0, 5, 6, s_], "k0+ d6 sel-congruent")
+        add("gethmac", [0, 5, 0, 5, s_], "sel-congruent"); add("pbkdf2vec", [0, 8, 0, 16, 1, 20, s_], "prf-congruent")
+        add("pbkdf2buf", [0, 8, 0, 16, 0, 1, 20, s_], "prf-congruent")
     # the verdict is independent of the candidate token: out-of-range / extreme tokens with every kind of invalid argument
     for (kn, kl), p, d, s, tok in itertools.product([(0, 5), (1, 5)], [30, 0, -1], [6, 0, 10], [0, 3, -1], [-1, 10 ** 6, 2 ** 31 - 1, -2 ** 31, 0]):
         add("totpvalidat_tok", [kn, kl, p, d, s, tok], "k%d p%s d%s sel%s tok%s" % (kn, p, d, s, "in" if tok == 0 else "out"))
